@@ -12,3 +12,13 @@ def negative_denormal_base(v):
         return False
     b = v.get('base', v.get('val'))
     return isinstance(b, float) and -1e-300 < b < 0
+
+
+def name_with_nul(v):
+    """D15: pandas/NumPy treat names holding a NUL character inconsistently - a scalar ending in NUL never equals
+    itself in `column == name` (fixed-width conversion drops trailing NULs: the instrument gets 0 hits), and the
+    hash tables behind duplicated()/isin()/unique() read strings up to the first NUL (distinct names collide)."""
+    if v.get('clause') not in ('result changes under a one-to-one renaming of the ceilometers', 'renamed scene raises'):
+        return False
+    mp = v.get('mapping') or {}
+    return any(isinstance(n, str) and '\x00' in n for n in mp.values())
